@@ -256,7 +256,7 @@ def calib_cases(draw):
         "aq": draw(st.sampled_from(["qint8", "qfloat8_e4m3fn", "qfloat8_e5m2"])),
         "wq": draw(st.sampled_from(["qint8", "qfloat8_e4m3fn", "qint4"])),
         "batches": draw(st.lists(st.sampled_from(["zeros", "const", "tiny", "huge", "normal", "single"]), min_size=1, max_size=3)),
-        "model": draw(st.sampled_from(["linear", "mlp", "ln-linear"])),
+        "model": draw(st.sampled_from(["linear", "mlp", "mlp-inplace", "mlp-inplace", "ln-linear"])),
         "seed": draw(st.integers(0, 2**20)),
         "inf": draw(st.sampled_from([5, 8, 16, 32])),
         "no_grad": draw(st.booleans()),
@@ -292,6 +292,10 @@ def exec_calib(case):
         model = torch.nn.Sequential(torch.nn.Linear(n, 6))
     elif case["model"] == "mlp":
         model = torch.nn.Sequential(torch.nn.Linear(n, 8), torch.nn.ReLU(), torch.nn.Linear(8, 4))
+    elif case["model"] == "mlp-inplace":
+        # activation functions applied IN PLACE on the (quantized) output of the first layer, as torchvision-style models do
+        act = [torch.nn.ReLU(inplace=True), torch.nn.ReLU6(inplace=True), torch.nn.Hardtanh(inplace=True)][case["seed"] % 3]
+        model = torch.nn.Sequential(torch.nn.Linear(n, 8, bias=bool(case["seed"] % 2)), act, torch.nn.Linear(8, 4))
     else:
         model = torch.nn.Sequential(torch.nn.LayerNorm(n), torch.nn.Linear(n, 6))
     with torch.no_grad():
@@ -334,13 +338,16 @@ def exec_calib(case):
                 out.fail(f"{tag}/{sn}-{v}/{'all-degenerate' if 'normal' not in case['batches'] else 'mixed'}-batches",
                          f"{name}.{sn} = {s.item()!r} after calibrating on batches {case['batches']} ({case['aq']}, weights {case['wq']}, {case['dtype']})")
                 return out
-    with torch.no_grad():
-        y = cut(model, probe)
-    if isinstance(y, Raised):
-        return out.fail(f"{tag}/inference-raises:{y.type}", y.text)
-    yd = y.dequantize() if isinstance(y, QTensor) else y
-    if not bool(torch.isfinite(yd).all()):
-        out.fail(f"{tag}/nonfinite-inference", f"inference after calibration on {case['batches']} gives NaN/Inf ({case['aq']}, {case['dtype']})")
+    for which, inp in [("probe", probe)] + [(b, x) for b, x in zip(case["batches"], batches)]:
+        # inference on an ordinary batch, and on the degenerate batches themselves
+        with torch.no_grad():
+            y = cut(model, inp)
+        if isinstance(y, Raised):
+            return out.fail(f"{tag}/inference-raises:{y.type}", y.text)
+        yd = y.dequantize() if isinstance(y, QTensor) else y
+        if not bool(torch.isfinite(yd).all()):
+            out.fail(f"{tag}/nonfinite-inference", f"inference on a {which} batch after calibration on {case['batches']} gives NaN/Inf ({case['aq']}, {case['dtype']}, {case['model']})")
+            break
     return out
 
 
